@@ -442,6 +442,7 @@ type c07Case struct {
 	infoMin [3][]int // minors of nodeDevice.deviceInfos (last updateNodeDevice)
 	live    [3]map[int][]c07Alloc
 	exact   bool // every removal so far carried the recorded allocation and no malformed add happened
+	histX   bool // the Lean history predicate histExact, computed here on the harness' own record: every accepted add had one entry per minor, every accepted removal carried exactly the recorded list
 	loose   bool // malformed stream: raw adds / heterogeneous devices => allocation oracle only tags
 	cur     *c07Ledger
 	nextPod int
@@ -455,7 +456,50 @@ func (c *c07Case) emitLedger() *c07Ledger {
 	for _, s := range l.lines(false) {
 		c.h.Obs("%s", s)
 	}
+	// the decidable hypotheses of the Lean theorems, evaluated on the harness' own record of the history:
+	// histWFB (amounts >= 0, inventories are maps: true by construction of the Go types) and histExact
+	c.h.Obs("x 1 %d", vB(c.histX))
+	if c.histX {
+		c.h.Tag("hyp:histExact")
+	} else {
+		c.h.Tag("hyp:not-histExact")
+	}
 	return l
+}
+
+func c07DistinctMinors(al []c07Alloc) bool {
+	seen := map[int]bool{}
+	for _, a := range al {
+		if seen[a.minor] {
+			return false
+		}
+		seen[a.minor] = true
+	}
+	return true
+}
+
+// bookkeeping of one accepted-or-dropped add / removal of one device type (the gate is the harness' own live record)
+func (c *c07Case) noteAdd(t, pod int, al []c07Alloc) {
+	if _, dup := c.live[t][pod]; dup {
+		return
+	}
+	if !c07DistinctMinors(al) {
+		c.histX = false
+	}
+	c.live[t][pod] = append([]c07Alloc(nil), al...)
+}
+
+func (c *c07Case) noteRemove(t, pod int, al []c07Alloc) {
+	rec, ok := c.live[t][pod]
+	if !ok {
+		return
+	}
+	if !c07SameAllocs(rec, al) {
+		c.exact = false
+		c.histX = false
+		c.h.Tag("history:stale-remove")
+	}
+	delete(c.live[t], pod)
 }
 
 // ---- oracle clauses evaluated after every state-changing op ----
@@ -703,10 +747,17 @@ func (c *c07Case) genInventory(first bool) {
 // ---- ledger ops ----
 func (c *c07Case) doAdd(kind string, pod int, g c07Groups) {
 	h, r := c.h, c.r
-	h.Op("add %d %s", pod, g.tok())
 	allocs := g.api()
 	before := c.cur
 	entry := r.Intn(3)
+	switch entry {
+	case 0:
+		h.Op("add %d %s", pod, g.tok())
+	case 1: // onPodAdd = updatePod(nil, pod)
+		h.Op("upd %d 0 0 1 0 0 %s", pod, g.tok())
+	default: // the annotation appears on an assigned pod
+		h.Op("upd %d 1 1 1 0 0 %s", pod, g.tok())
+	}
 	if h.Guard(func() {
 		switch entry {
 		case 0: // Reserve
@@ -729,10 +780,8 @@ func (c *c07Case) doAdd(kind string, pod int, g c07Groups) {
 		h.Obs("panic")
 		return
 	}
-	for t, al := range g {
-		if _, dup := c.live[t][pod]; !dup {
-			c.live[t][pod] = append([]c07Alloc(nil), al...)
-		}
+	for _, t := range g.types() {
+		c.noteAdd(t, pod, g[t])
 	}
 	c.cur = c.emitLedger()
 	c.checkLedger(kind, before, c.cur)
@@ -740,10 +789,17 @@ func (c *c07Case) doAdd(kind string, pod int, g c07Groups) {
 
 func (c *c07Case) doRemove(kind string, pod int, g c07Groups) {
 	h, r := c.h, c.r
-	h.Op("rem %d %s", pod, g.tok())
 	allocs := g.api()
 	before := c.cur
 	entry := r.Intn(3)
+	switch entry {
+	case 0:
+		h.Op("rem %d %s", pod, g.tok())
+	case 1:
+		h.Op("del %d 1 %s", pod, g.tok())
+	default:
+		h.Op("upd %d 1 1 1 1 %s %s", pod, g.tok(), g.tok())
+	}
 	if h.Guard(func() {
 		switch entry {
 		case 0: // Unreserve
@@ -766,14 +822,8 @@ func (c *c07Case) doRemove(kind string, pod int, g c07Groups) {
 		h.Obs("panic")
 		return
 	}
-	for t, al := range g {
-		if rec, ok := c.live[t][pod]; ok {
-			if !c07SameAllocs(rec, al) {
-				c.exact = false
-				h.Tag("history:stale-remove")
-			}
-			delete(c.live[t], pod)
-		}
+	for _, t := range g.types() {
+		c.noteRemove(t, pod, g[t])
 	}
 	c.cur = c.emitLedger()
 	c.checkLedger(kind, before, c.cur)
@@ -782,8 +832,7 @@ func (c *c07Case) doRemove(kind string, pod int, g c07Groups) {
 // re-delivery of an update whose old and new objects carry the recorded allocation
 func (c *c07Case) doReannotate(pod int, g c07Groups) {
 	h := c.h
-	h.Op("remq %d %s", pod, g.tok())
-	h.Op("add %d %s", pod, g.tok())
+	h.Op("upd %d 1 1 1 0 %s %s", pod, g.tok(), g.tok())
 	allocs := g.api()
 	before := c.cur
 	if h.Guard(func() {
@@ -797,6 +846,165 @@ func (c *c07Case) doReannotate(pod int, g c07Groups) {
 	c.checkLedger("release", before, c.cur) // an update never grows an over-commit either
 	if !before.equal(c.cur) {
 		h.Fail("C07:update-same-not-noop", "re-delivered update with identical allocations changed the ledger")
+	}
+}
+
+// onPodUpdate(old, new) whose device-allocation annotation CHANGED (moved to another minor, other amounts, a device
+// type appears / disappears, the whole annotation appears / disappears).  updatePod must release the OLD object's
+// allocation and then add the NEW object's, each half behind the isValid gate of its device types (model:
+// updatePodOps).  oldAssigned=false: the old object had no node yet (a pod that carried a designated allocation
+// before it was scheduled) - no release half.  newAssigned=false: the pod lost its node (multi-scheduler clean-up)
+// - deletePod(old).  newTerminated: deletePod(new) - the NEW object's annotation is what gets subtracted.
+func (c *c07Case) doUpdate(kind string, pod int, oldG, newG c07Groups, oldAssigned, newAssigned, newTerminated bool) {
+	h := c.h
+	h.Op("upd %d 1 %d %d %d %s %s", pod, vB(oldAssigned), vB(newAssigned), vB(newTerminated), oldG.tok(), newG.tok())
+	before := c.cur
+	oldNode, newNode := c07Node, c07Node
+	if !oldAssigned {
+		oldNode = ""
+	}
+	if !newAssigned {
+		newNode = ""
+	}
+	if h.Guard(func() {
+		np := c07Pod(pod, newG.api(), newNode)
+		if newTerminated {
+			np.Status.Phase = corev1.PodFailed
+		}
+		c.cache.onPodUpdate(c07Pod(pod, oldG.api(), oldNode), np)
+		h.Tag("entry:onPodUpdate-changed")
+	}) {
+		h.Obs("panic")
+		return
+	}
+	// what the pod holds afterwards (the property's reading of an update): nothing if the new object is unassigned or
+	// terminated, else the new object's allocation; what is released is named by the object the handler reads
+	switch {
+	case !newAssigned:
+		if oldAssigned {
+			for _, t := range oldG.types() {
+				c.noteRemove(t, pod, oldG[t])
+			}
+		}
+	case newTerminated:
+		for _, t := range newG.types() {
+			c.noteRemove(t, pod, newG[t])
+		}
+	default:
+		if oldAssigned {
+			for _, t := range oldG.types() {
+				c.noteRemove(t, pod, oldG[t])
+			}
+		}
+		for _, t := range newG.types() {
+			c.noteAdd(t, pod, newG[t])
+		}
+	}
+	c.cur = c.emitLedger()
+	c.checkLedger(kind, before, c.cur)
+}
+
+func (c *c07Case) otherMinor(t int, al []c07Alloc) (int, bool) {
+	r := c.r
+	used := map[int]bool{}
+	for _, a := range al {
+		used[a.minor] = true
+	}
+	var cands []int
+	for _, d := range c.inv[t] {
+		if !used[d.minor] {
+			cands = append(cands, d.minor)
+		}
+	}
+	if len(cands) > 0 && !r.Chance(1, 6) {
+		return cands[r.Intn(len(cands))], true
+	}
+	m := r.Intn(8)
+	return m, !used[m]
+}
+
+func (c *c07Case) smallVec(t int) c07Vec {
+	r := c.r
+	v := c07Absent
+	for k := 0; k < c.da[t]; k++ {
+		if k > 0 && r.Bool() {
+			continue
+		}
+		v[k] = int64(r.Pick([]int64{10, 20, 50, 50, 100, int64(r.Range(1, 100))}))
+		if k == 1 {
+			v[k] = int64(r.Range(1, 16))
+		}
+	}
+	return v
+}
+
+// a changed annotation derived from the recorded one (one entry per minor, so the history stays exact)
+func (c *c07Case) genChanged(oldG c07Groups) (c07Groups, string) {
+	r := c.r
+	newG := c07Groups{}
+	for t, al := range oldG {
+		newG[t] = append([]c07Alloc(nil), al...)
+	}
+	ts := newG.types()
+	switch r.Intn(7) {
+	case 0, 1: // the allocation moves to another minor
+		if len(ts) > 0 {
+			t := ts[r.Intn(len(ts))]
+			if len(newG[t]) > 0 {
+				if m, ok := c.otherMinor(t, newG[t]); ok {
+					newG[t][r.Intn(len(newG[t]))].minor = m
+					return newG, "move"
+				}
+			}
+		}
+		return newG, "same"
+	case 2, 3: // other amounts on the same minor
+		if len(ts) > 0 {
+			t := ts[r.Intn(len(ts))]
+			if len(newG[t]) > 0 {
+				i := r.Intn(len(newG[t]))
+				v := c.smallVec(t)
+				if v != newG[t][i].vec {
+					newG[t][i].vec = v
+					return newG, "amount"
+				}
+			}
+		}
+		return newG, "same"
+	case 4: // a device type (or one more device) appears
+		for _, t := range c.inPlay {
+			if _, ok := newG[t]; !ok {
+				if m, ok := c.otherMinor(t, nil); ok {
+					newG[t] = []c07Alloc{{minor: m, vec: c.smallVec(t)}}
+					return newG, "type-appears"
+				}
+			}
+		}
+		if len(ts) > 0 {
+			t := ts[r.Intn(len(ts))]
+			if m, ok := c.otherMinor(t, newG[t]); ok {
+				newG[t] = append(newG[t], c07Alloc{minor: m, vec: c.smallVec(t)})
+				return newG, "device-appears"
+			}
+		}
+		return newG, "same"
+	case 5: // a device type / one device disappears
+		if len(ts) > 0 {
+			t := ts[r.Intn(len(ts))]
+			if len(newG[t]) > 1 && r.Bool() {
+				i := r.Intn(len(newG[t]))
+				newG[t] = append(newG[t][:i:i], newG[t][i+1:]...)
+				return newG, "device-disappears"
+			}
+			delete(newG, t)
+			if len(newG) == 0 {
+				return newG, "annotation-disappears"
+			}
+			return newG, "type-disappears"
+		}
+		return newG, "same"
+	default: // the whole annotation disappears
+		return c07Groups{}, "annotation-disappears"
 	}
 }
 
@@ -1245,7 +1453,7 @@ func TestVerifC07(t *testing.T) {
 		if r == nil {
 			continue
 		}
-		c := &c07Case{h: h, r: r, cache: newNodeDeviceCache(), exact: true, nextPod: 1, cur: &c07Ledger{rows: map[[2]int]*c07Row{}, pods: map[[2]int]map[int]c07Vals{}}}
+		c := &c07Case{h: h, r: r, cache: newNodeDeviceCache(), exact: true, histX: true, nextPod: 1, cur: &c07Ledger{rows: map[[2]int]*c07Row{}, pods: map[[2]int]map[int]c07Vals{}}}
 		for t := 0; t < 3; t++ {
 			c.live[t] = map[int][]c07Alloc{}
 		}
@@ -1282,7 +1490,7 @@ func TestVerifC07(t *testing.T) {
 		if h.Tier == "thorough" && r.Chance(1, 10) {
 			steps = r.Range(12, 30)
 		}
-		commits := 0
+		commits, updates := 0, 0
 		for s := 0; s < steps; s++ {
 			x := r.Intn(100)
 			live := c.livePods()
@@ -1300,7 +1508,7 @@ func TestVerifC07(t *testing.T) {
 					commits++
 					h.Tag("op:commit")
 				}
-			case x < 63:
+			case x < 60:
 				if len(live) == 0 {
 					continue
 				}
@@ -1314,7 +1522,7 @@ func TestVerifC07(t *testing.T) {
 				c.doRemove("release", p, g)
 				c.gone = append(c.gone, p)
 				h.Tag("op:release")
-			case x < 71:
+			case x < 66:
 				if len(live) == 0 {
 					continue
 				}
@@ -1327,7 +1535,7 @@ func TestVerifC07(t *testing.T) {
 				}
 				c.doAdd("dup", p, g)
 				h.Tag("op:dup-add")
-			case x < 77:
+			case x < 71:
 				p := 50 + r.Intn(5)
 				if len(c.gone) > 0 && r.Bool() {
 					p = c.gone[r.Intn(len(c.gone))]
@@ -1338,7 +1546,7 @@ func TestVerifC07(t *testing.T) {
 				tt := c.inPlay[r.Intn(len(c.inPlay))]
 				c.doRemove("absent", p, c07Groups{tt: c.genRawAllocs(tt)})
 				h.Tag("op:remove-absent")
-			case x < 81:
+			case x < 75:
 				if len(live) == 0 {
 					continue
 				}
@@ -1348,7 +1556,59 @@ func TestVerifC07(t *testing.T) {
 				}
 				c.doReannotate(p, c.liveGroups(p))
 				h.Tag("op:update-same")
-			case x < 95:
+			case x < 86:
+				// a pod update whose device-allocation annotation changed; the old object is what the informer delivered last
+				if len(live) > 0 && !r.Chance(1, 5) {
+					p := live[r.Intn(len(live))]
+					oldG := c.liveGroups(p)
+					newG, what := c.genChanged(oldG)
+					if c.loose && r.Chance(1, 3) { // unfaithful delivery: the old object is not what the cache recorded
+						for tt := range oldG {
+							oldG[tt] = c.genRawAllocs(tt)
+						}
+					}
+					c.doUpdate("update", p, oldG, newG, true, true, false)
+					h.Tag("op:update-changed")
+					h.Tag("update:" + what)
+					if len(newG) > 0 && c.exact && r.Chance(1, 3) { // the informer resyncs: the same object twice
+						c.doReannotate(p, c.liveGroups(p))
+						h.Tag("op:update-same")
+					}
+					if len(c.liveGroups(p)) == 0 {
+						c.gone = append(c.gone, p)
+					} else if r.Chance(1, 3) { // ... and the pod is deleted with its last annotation
+						c.doRemove("release", p, c.liveGroups(p))
+						c.gone = append(c.gone, p)
+						h.Tag("op:release")
+					}
+					updates++
+				} else {
+					// the annotation appears on a pod the cache does not hold (old object without annotation, or an old object
+					// that carried an annotation while it was still unassigned)
+					tt := c.inPlay[r.Intn(len(c.inPlay))]
+					m, ok := c.otherMinor(tt, nil)
+					if !ok {
+						continue
+					}
+					newG := c07Groups{tt: []c07Alloc{{minor: m, vec: c.smallVec(tt)}}}
+					oldG := c07Groups{}
+					assigned := true
+					if r.Bool() {
+						assigned = false
+						oldG = c07Groups{tt: []c07Alloc{{minor: r.Intn(8), vec: c.smallVec(tt)}}}
+					}
+					p := c.nextPod
+					c.nextPod++
+					c.doUpdate("update", p, oldG, newG, assigned, true, false)
+					h.Tag("op:update-changed")
+					if assigned {
+						h.Tag("update:annotation-appears")
+					} else {
+						h.Tag("update:old-unassigned")
+					}
+					updates++
+				}
+			case x < 96:
 				c.genInventory(false)
 				c.applyInventory(r.Chance(1, 8))
 				h.Tag("op:refresh")
@@ -1381,13 +1641,14 @@ func TestVerifC07(t *testing.T) {
 				h.Tag("op:raw-add")
 			}
 		}
-		if commits > 0 {
+		if commits > 0 || updates > 0 {
 			h.Nontrivial()
 		}
 		h.End()
 	}
 	h.Close("one history per case on one node: inventory of 1-5 devices per type (gpu/rdma/fpga, 1-3 resource dimensions, unhealthy and zero devices), " +
 		"then 4-12 (thorough: up to 30) ops: allocate (allocateDevices or AutopilotAllocator; fractional/whole/multi-device, required/preferred minors, " +
-		"preemption/reservation view, nil/least/most scorer) + commit, release, duplicate add, removal of an absent pod, re-delivered update, inventory refresh / invalidation; " +
+		"preemption/reservation view, nil/least/most scorer) + commit, release, duplicate add, removal of an absent pod, re-delivered update, pod update with a CHANGED allocation annotation " +
+		"(moved minor / other amounts / type or device appears / disappears / annotation appears on an unknown pod, old object unassigned; then resync and delete), inventory refresh / invalidation; " +
 		"1/6 of the cases are the malformed stream (raw adds, stale removals, heterogeneous devices). non-trivial = at least one allocation was committed; distinct by op list")
 }
